@@ -69,3 +69,15 @@ Example C08_example :
                      | _, _ => false
                      end) [tr_two_acqs; tr_abort; tr_stofail] = true.
 Proof. vm_compute. reflexivity. Qed.
+
+Example C08_example_start_while_running :
+  match after tr_restart before_start_refused, accepts init_sys tr_restart, lc_run (fun _ => LNew) tr_restart with
+  | Some y, Some _, Some m =>
+      match step y (EvG GStartRefused) with
+      | Some y' => (match in_call y with InStartBusy => true | _ => false end) && any_running (st0 y)
+                   && forallb (fun n => match m n with LClosed => true | _ => false end) (opens tr_restart)
+      | None => false
+      end
+  | _, _, _ => false
+  end = true.
+Proof. vm_compute. reflexivity. Qed.
